@@ -331,15 +331,16 @@ def replay_engine(args):
 
 def check_engine(rep):
     if rep.tier == 'thorough':
-        sizes, maxlen = range(4, 13), 8
+        passes = [(range(4, 13), 8, 4), (range(4, 9), 12, 3)]
     else:
-        sizes, maxlen = range(4, 9), 6
+        passes = [(range(4, 11), 7, 3)]
     tasks = []
-    for size in sizes:
-        for pos in (0, 1, 2):
-            for off in (0, size, 3 * size):
-                tasks.append((size, pos, off, maxlen, 3))
-    tasks.sort(key=lambda t: -t[0])
+    for sizes, maxlen, maxn in passes:
+        for size in sizes:
+            for pos in (0, 1, 2):
+                for off in (0, size, 3 * size):
+                    tasks.append((size, pos, off, maxlen, maxn))
+    tasks.sort(key=lambda t: -(t[0] * 100 + t[3]))
     ctx = mp.get_context('fork')
     with cf.ProcessPoolExecutor(NPROC, mp_context=ctx) as ex:
         results = list(ex.map(explore_config, tasks, chunksize=1))
@@ -359,11 +360,13 @@ def check_engine(rep):
             key=v['key'], replay={'func': 'engine', 'args': v['input']})
     rep.bounded(
         name='engine', function='sc3.synth._engine.ContiguousBlockAllocator',
-        bound='all histories of length <= %d over {alloc 1..3, free(any '
-              'address ever returned), free(smallest/largest address never '
-              'returned)}, sizes %d..%d, pos 0..2, addr_offset in {0, size, '
-              '3*size}, every bi.choice tie-break; identical states merged'
-              % (maxlen, sizes[0], sizes[-1]),
+        bound='; '.join(
+            'all histories of length <= %d over {alloc 1..%d, free(any '
+            'address ever returned), free(smallest/largest address never '
+            'returned)}, sizes %d..%d' % (ml, mn, sz[0], sz[-1])
+            for sz, ml, mn in passes) +
+            '; pos 0..2, addr_offset in {0, size, 3*size}, every bi.choice '
+            'tie-break; identical states merged',
         evaluations=evals, distinct_nontrivial=states,
         rule='breadth first; evaluations = alloc/free calls on the real '
              'allocator (incl. drain checks), distinct = distinct '
@@ -624,8 +627,15 @@ def _partition_problem(server, kind, parts):
     return None
 
 
+def _obj_offset(inp):
+    """Address offset of the partition = its lower bound minus the reserved
+    indices of the option set (only used to name the violation key)."""
+    res = OBJ_CFGS[inp['cfg']]['res'][KINDS.index(inp['kind'])]
+    return inp['partition'][0] - res
+
+
 def check_objects(rep):
-    maxlen = 5 if rep.tier == 'thorough' else 4
+    maxlen = 6 if rep.tier == 'thorough' else 5
     tasks = [(ci, cid, kind, maxlen) for ci in range(len(OBJ_CFGS))
              for cid in range(4) for kind in KINDS]
     ctx = mp.get_context('fork')
@@ -657,7 +667,7 @@ def check_objects(rep):
     allv.sort(key=lambda v: v['len'])
     for v in allv:
         cid = v['input']['client_id']
-        key = _key_for(v['clause'], cid, 'objects')
+        key = _key_for(v['clause'], _obj_offset(v['input']), 'objects')
         rep.violation(
             obligation='C16.objects.' + v['clause'],
             what='%s objects of client %d (options %r): %s'
@@ -837,7 +847,7 @@ def replay(case, rep):
         if bad:
             rep.violation(obligation=case.get('obligation', 'C16.objects'),
                           what=bad[1], input=args, observed=bad[2],
-                          key=_key_for(bad[0], args['client_id'], 'objects'))
+                          key=_key_for(bad[0], _obj_offset(args), 'objects'))
         return not bad
     if func == 'partitions':
         bad = replay_partitions(args)
